@@ -110,6 +110,12 @@ T["C17"] = dict(
     technique="TLA+ syntax machines + exact evaluator; TLC design theorem with canary; spec->code replay of texts (postfix) and values (scalars, arrays)",
     ref="6. C17")
 
+T["C14"] = dict(
+    text="spec/FllSyntax.tla holds abstract engines over the numerals the language can express (sign, integer part, fraction scaled by 10^decimals, inf/-inf/nan), the exporter (engine -> lines of tokens, number formatting, height / weight / resolution / type dropped at their defaults, per-class parameter tables of 23 terms, 7 activation methods, 7 defuzzifiers), the importer as a machine that consumes one line per step keyed by the text before the colon, and eight meaning-preserving variants of a text. TLC checks on ~5,000 (thorough ~31,000) component-wise enumerated engines x decimals that Import(Export(e)) = Canon(e), Export(Import(Export(e))) = Export(e) and that every variant imports to Canon(e) (so one cycle normalises it); canary: an importer that crosses lock-range and lock-previous must fail. spec->code: every emitted engine is built with constructors; FllExporter's text must equal the specification's token for token, FllImporter's result projected must equal Canon(e), export-import-export must be textually stable, two variants per case must import to Canon(e) and re-export canonically, original and re-imported engine must compute identical outputs on sampled inputs. code->spec: texts recorded from the real exporter for seeded whole engines, engines with perturbed (non-representable) doubles and the 61 shipped examples are lexed and validated by TLC against the specification.",
+    note="Assumes identifier names, descriptions without '#', heights/weights 1 or further than twice the tolerance from 1 where outputs are compared; doubles are projected onto numerals by exact decimal rounding (decimal module) - Python's float()/format() are trusted. Rule texts are opaque token sequences here (their grammar is C06/C16).",
+    technique="TLA+ exporter/importer specification + TLC exhaustive component-wise check with canary; spec->code replay (token-exact) and code->spec validation of recorded exports by TLC",
+    ref="6. C14")
+
 PLANNED = {}
 
 def main():
